@@ -19,6 +19,9 @@ var (
 	seq    uint64
 	// Fired counts timer expiries dispatched so far (for harness bookkeeping).
 	Fired int
+	// Late is added to the time value a channel timer delivers: the runtime never fires early and
+	// in practice always a little late.
+	Late time.Duration
 )
 
 // Timer mirrors time.Timer.
@@ -62,6 +65,7 @@ func NewTimer(d time.Duration) *Timer {
 	defer mu.Unlock()
 	c := make(chan time.Time, 1)
 	t := &Timer{C: c, c: c}
+	tickers = append(tickers, t)
 	add(t, d)
 	return t
 }
@@ -143,7 +147,7 @@ func Advance(d time.Duration, settle func()) {
 			go f()
 		} else {
 			select {
-			case t.c <- now:
+			case t.c <- now.Add(Late):
 			default:
 			}
 			mu.Unlock()
@@ -174,5 +178,56 @@ func ResetClock() {
 	defer mu.Unlock()
 	now = time.Date(2030, 1, 1, 0, 0, 0, 0, time.UTC)
 	timers = nil
+	tickers = nil
 	Fired = 0
+	Late = 0
+}
+
+// Ticks returns how many channel timers hold an undelivered tick in their channel.
+var tickers []*Timer
+
+// PendingTicks counts undelivered ticks of all channel timers created since the last ResetClock.
+func PendingTicks() int {
+	mu.Lock()
+	defer mu.Unlock()
+	n := 0
+	for _, t := range tickers {
+		n += len(t.c)
+	}
+	return n
+}
+
+// Step moves the clock forward by d and then dispatches at most ONE due expiry (the earliest), at
+// the new time. It reports whether a timer fired. Used by harnesses whose model takes one expiry per step.
+func Step(d time.Duration, settle func()) bool {
+	mu.Lock()
+	now = now.Add(d)
+	t := due(now)
+	if t == nil {
+		mu.Unlock()
+		return false
+	}
+	t.active = false
+	remove(t)
+	Fired++
+	if t.f != nil {
+		f := t.f
+		mu.Unlock()
+		go f()
+	} else {
+		select {
+		case t.c <- now.Add(Late):
+		default:
+		}
+		mu.Unlock()
+	}
+	if settle != nil {
+		settle()
+	}
+	return true
+}
+
+// SinceEpoch is the virtual time in nanoseconds since the clock was reset.
+func SinceEpoch() int64 {
+	return int64(Now().Sub(time.Date(2030, 1, 1, 0, 0, 0, 0, time.UTC)))
 }
